@@ -125,6 +125,47 @@ def chained_enablement(check, j):
             "outcome": {} if flag else {"gate": "disabled"}}
 
 
+def faulting_condition(check, j):
+    """A step whose `enabled` condition cannot be evaluated (division by zero over workflow input or over a step's result): the
+    condition never became true, so the step must not run - the run ends with an error."""
+    rng = random.Random(derive_seed(check.seed, "c04-fault", j))
+    a = gen.plugin_step("a", Expr(In("tag")), extra_input={"n": Expr(In("n"))})
+    src = rng.choice(["input", "step"])
+    n = In("n") if src == "input" else Ref("a", "outputs", "success", "n")
+    cond = Bin(rng.choice([">=", ">", "=="]), Bin("/", Lit(100), Bin("-", n, n)), Lit(1))
+    guarded = gen.plugin_step("guarded", gen.tagref("a"), enabled=Expr(cond))
+    steps = [a, guarded]
+    if rng.random() < 0.5:
+        steps.append(gen.plugin_step("after", gen.tagref("guarded")))
+    rng.shuffle(steps)
+    outs = {"ran": {"g": gen.tagref("after" if any(s_.name == "after" for s_ in steps) else "guarded")}, "skipped": {"m": Expr(Ref("guarded", "disabled", "output", "message"))}}
+    prog = Program(steps, outs, gen.BASE_INPUT)
+    return {"program": prog, "scripts": gen.make_scripts(steps, {}), "input": {"tag": "T1", "n": rng.choice([0, 3, -2])}, "shape": "faulting-enabled-condition/" + src, "outcome": {"guarded": "condition cannot be evaluated"}}
+
+
+def stopped_before_deployment(check, j):
+    """X waits for its deployment configuration (it comes from a slow step) when its stop condition fires: X is closed, it did
+    not fail to deploy - the handler that waits for X's deploy_failed output must not run."""
+    rng = random.Random(derive_seed(check.seed, "c04-predeploy", j))
+    S = gen.plugin_step("S", Expr(In("tag")))
+    slow = gen.plugin_step("slow", Expr(In("tag")))
+    X = gen.plugin_step("X", Expr(In("tag")), deploy={"deployer_name": "scripted", "tag": gen.tagref("slow")}, stop_if=Expr(Ref("S", "outputs", "success", "tag")))
+    X.stop_mode = "before"
+    how = rng.choice(["wait_for", "input"])
+    if how == "wait_for":
+        H = gen.plugin_step("H", Expr(In("tag")), wait_for=Expr(Ref("X", "deploy_failed", "error")))
+    else:
+        H = gen.plugin_step("H", Expr(Ref("X", "deploy_failed", "error", "error")))
+    steps = [S, slow, X, H]
+    rng.shuffle(steps)
+    outs = {"x_closed": {"c": Expr(Ref("X", "closed", "result")), "s": gen.tagref("slow")}, "handler_ran": {"h": gen.tagref("H"), "s": gen.tagref("slow")}, "x_ran": {"x": gen.tagref("X")}}
+    scripts = gen.make_scripts(steps, {})
+    scripts["slow"]["exec"] = {"outcome": "success", "gate": "s_done"}
+    prog = Program(steps, outs, gen.BASE_INPUT)
+    g = {"program": prog, "scripts": scripts, "input": {"tag": "T1"}, "shape": "stopped-while-waiting-for-deployment-configuration/" + how, "outcome": {"X": "stopped-before-deployment"}}
+    return g, [{"kind": "conn-close", "src": "S", "nth": 2, "action": "open:s_done"}]
+
+
 def run(check):
     check.rule = ("a failing (error/alt/crash/drop/deploy failure) or disabled step placed at every position of 6 shapes (enumerated), the two-hop "
                   "stop-before-start construction, a loop item ending in another declared output with a step needing the loop's success, a step enabled by the enabling result "
@@ -149,6 +190,7 @@ def run(check):
     for j in range(check.pick(24, 200)):
         gs.append(loop_other_output(check, j))
         gs.append(chained_enablement(check, j))
+        gs.append(faulting_condition(check, j))
     for i in range(check.pick(150, 2500)):
         g = runfam.gen_terminating(check.seed, "c04-%d" % i, p_fail=0.4, outcomes=FAILS)
         if g is not None:
@@ -165,6 +207,10 @@ def run(check):
     for j in range(check.pick(18, 150)):
         g, trig = stop_while_running(check, j)
         case, sem = runfam.build_case("c04-w%04d" % j, g, triggers=trig)
+        items.append((case, sem, g))
+    for j in range(check.pick(12, 100)):
+        g, trig = stopped_before_deployment(check, j)
+        case, sem = runfam.build_case("c04-d%04d" % j, g, triggers=trig)
         items.append((case, sem, g))
     for j, (g, plan) in enumerate(targeted):
         opts = {"plan": plan, "plan_scope": "execute"} if plan else {}
